@@ -8,6 +8,7 @@ TInit == n = 0 /\ bad = {}
 TNext == /\ n < Len(Obs)
          /\ n' = n + 1
          /\ bad' = IF Obs[n + 1].kind = "pair" THEN R!JudgePair(Obs[n + 1].sc, Obs[n + 1].obs)
+                   ELSE IF Obs[n + 1].kind = "twin" THEN R!JudgeTwin(Obs[n + 1].sc, Obs[n + 1].obs)
                    ELSE R!Judge(Obs[n + 1].sc, Obs[n + 1].obs)
 TSpec == TInit /\ [][TNext]_<<n, bad>>
 Report == bad = {} \/ PrintT(ToJson([id |-> Obs[n].id, bad |-> bad]))
